@@ -1,10 +1,239 @@
 (** C15 - Enum values survive encoding and decoding; invalid ones are rejected.
-    Only statements here; proofs are in proofs/EnumProofs.v. *)
-From Coq Require Import String ZArith List Bool.
+    Only statements here; proofs are in proofs/EnumProofs.v (with EnumOrder.v: the order
+    on strings, EnumSearch.v: argsort and searchsorted).  All statements are about the
+    functions of model/EnumModel.v that corr/Corr_C15.v runs against the implementation:
+    [encode] (Enum.encode with _encode_array / _encode_array_like and the helpers
+    [int_to_index], [str_to_index], [enum_to_index]), [decode], [decode_to_str],
+    [argsort], [searchsorted], [lookup].
+
+    Reading guide.  An enumeration [e] is its identity [eid e] and the list [names e] of
+    its member names in declaration order (any length; the statements about names ask for
+    [NoDup (names e)], which Python's enum machinery guarantees).  A member is the pair
+    (identity of its enumeration, index).  [as_ints x = Some l] reads "x is a numpy integer
+    array, or a Python sequence of ints/bools, holding the values l"; [as_names],
+    [as_members] likewise.  [valid_index e i] is [0 <= i < size e]. *)
+From Coq Require Import String ZArith List Bool Permutation.
 From Verif Require Import Base EnumModel EnumProofs.
 Import ListNotations.
+Open Scope string_scope.
 Open Scope Z_scope.
+
+(** ** Round trips: encoding valid indices / names / members and decoding gives back the
+       same members in the same order *)
+
+Theorem decode_encode_indices : forall e x l,
+  as_ints x = Some l -> (forall i, In i l -> valid_index e i) ->
+  exists a ns, encode e x = Ok a /\ possible_values a = Some e /\ indices a = l /\
+    decode a = Ok (map (fun i => (eid e, i)) l) /\
+    decode_to_str a = Ok ns /\
+    Forall2 (fun i s => nth_error (names e) (Z.to_nat i) = Some s) l ns.
+Proof. exact decode_encode_indices_lemma. Qed.
+Print Assumptions decode_encode_indices.
+
+Theorem decode_encode_names : forall e x l,
+  NoDup (names e) -> as_names x = Some l -> (forall s, In s l -> In s (names e)) ->
+  exists a ms, encode e x = Ok a /\ possible_values a = Some e /\
+    decode_to_str a = Ok l /\ decode a = Ok ms /\
+    Forall2 (fun s m => member_name e m = Some s) l ms.
+Proof. exact decode_encode_names_lemma. Qed.
+Print Assumptions decode_encode_names.
+
+Theorem decode_encode_members : forall e x ms,
+  as_members x = Some ms -> (forall m, In m ms -> fst m = eid e /\ valid_index e (snd m)) ->
+  exists a ns, encode e x = Ok a /\ possible_values a = Some e /\ decode a = Ok ms /\
+    decode_to_str a = Ok ns /\ Forall2 (fun m s => member_name e m = Some s) ms ns.
+Proof. exact decode_encode_members_lemma. Qed.
+Print Assumptions decode_encode_members.
+
+(** ** Encoding an already encoded array changes nothing *)
 
 Theorem encode_encoded_unchanged : forall e a, encode e (Encoded a) = Ok a.
 Proof. exact encode_encoded. Qed.
 Print Assumptions encode_encoded_unchanged.
+
+Theorem encode_idempotent : forall e e' x a,
+  encode e x = Ok a -> encode e' (Encoded a) = Ok a.
+Proof. exact encode_idempotent_lemma. Qed.
+Print Assumptions encode_idempotent.
+
+(** ** An encoded array never holds an index that does not designate a member.
+       ([wf_members e x]: the member objects of [e] found in [x] carry one of [e]'s indices,
+       which is true of every object Python's enum machinery creates; the hypothesis says
+       nothing about names, integers, or members of other enumerations.) *)
+
+Theorem encode_total_valid : forall e x a,
+  (forall b, x <> Encoded b) -> wf_members e x -> encode e x = Ok a ->
+  possible_values a = Some e /\ length (indices a) = input_len x /\
+  forall i, In i (indices a) -> valid_index e i.
+Proof. exact encode_total_valid_lemma. Qed.
+Print Assumptions encode_total_valid.
+
+(** ... so decoding it succeeds and yields members of this enumeration, one per element *)
+Theorem encoded_decodes : forall e x a,
+  (forall b, x <> Encoded b) -> wf_members e x -> encode e x = Ok a ->
+  exists ms ns, decode a = Ok ms /\ decode_to_str a = Ok ns /\
+    length ms = input_len x /\ length ns = input_len x /\
+    forall m, In m ms -> fst m = eid e /\ valid_index e (snd m).
+Proof. exact encoded_decodes_lemma. Qed.
+Print Assumptions encoded_decodes.
+
+(** ** Invalid inputs are rejected.  [In _ l] is "anywhere in the input": first, last
+       or in the middle, whatever surrounds it. *)
+
+(** an index < 0 or >= n anywhere among integers: EnumMemberNotFoundError (an IndexError) *)
+Theorem index_out_of_range_rejected : forall e x l i,
+  as_ints x = Some l -> In i l -> (i < 0 \/ size e <= i) -> encode e x = Err EIndex.
+Proof. exact index_out_of_range_rejected_lemma. Qed.
+Print Assumptions index_out_of_range_rejected.
+
+(** an unknown name anywhere among names: EnumMemberNotFoundError *)
+Theorem unknown_name_rejected : forall e x l s,
+  as_names x = Some l -> In s l -> ~ In s (names e) -> encode e x = Err EIndex.
+Proof. exact unknown_name_rejected_lemma. Qed.
+Print Assumptions unknown_name_rejected.
+
+(** a member of another enumeration anywhere among members: EnumEncodingError (a TypeError) *)
+Theorem foreign_member_rejected : forall e x ms m,
+  as_members x = Some ms -> In m ms -> fst m <> eid e -> encode e x = Err EType.
+Proof. exact foreign_member_rejected_lemma. Qed.
+Print Assumptions foreign_member_rejected.
+
+(** an element of an unsupported type (float, bytes, None, ...) anywhere in a sequence or
+    object array, or a non-empty array of another dtype: EnumEncodingError *)
+Theorem unsupported_type_rejected : forall e x,
+  In EOther (input_elems x) \/ (exists n, x = ArrOther (S n)) -> encode e x = Err EType.
+Proof. exact unsupported_type_rejected_lemma. Qed.
+Print Assumptions unsupported_type_rejected.
+
+(** elements of different kinds in one input, even if each is valid on its own *)
+Theorem mixed_kinds_rejected : forall e l,
+  l <> [] -> all_ints l = None -> all_strs l = None -> all_enums l = None ->
+  encode e (Seq l) = Err EType /\ encode e (ArrObj l) = Err EType.
+Proof. exact mixed_kinds_rejected_lemma. Qed.
+Print Assumptions mixed_kinds_rejected.
+
+(** all classes at once, also inside inputs of mixed kinds ([input_invalid]: some element
+    is an out-of-range integer, an unknown name, a foreign member or of unsupported type) *)
+Theorem invalid_rejected : forall e x, input_invalid e x -> exists k, encode e x = Err k.
+Proof. exact invalid_rejected_lemma. Qed.
+Print Assumptions invalid_rejected.
+
+(** ** The str -> index route (argsort + searchsorted), for every duplicate-free name list
+       in any order and any sorting permutation: a member's name is mapped to its
+       declaration index; for a non-member the search lands past the end or on a strictly
+       greater name, never on a member that could be taken for it *)
+
+Theorem searchsorted_finds : forall nm sorter,
+  NoDup nm -> Permutation sorter (seq 0 (length nm)) -> sorts nm sorter ->
+  (forall i s, nth_error nm i = Some s -> lookup nm sorter s = Ok (Z.of_nat i)) /\
+  (forall s, ~ In s nm ->
+     exists r, searchsorted nm sorter s = Ok r /\
+       (r = length sorter \/
+        exists j t, nth_error sorter r = Some j /\ nth_error nm j = Some t /\ String.ltb s t = true)).
+Proof. exact searchsorted_finds_lemma. Qed.
+Print Assumptions searchsorted_finds.
+
+(** the model's argsort is such a sorting permutation, for every name list *)
+Theorem argsort_sorts : forall nm,
+  Permutation (argsort nm) (seq 0 (length nm)) /\ sorts nm (argsort nm).
+Proof. exact argsort_sorts_lemma. Qed.
+Print Assumptions argsort_sorts.
+
+(** _str_to_index on any input: the declaration indices of the names that are members, in
+    order; unknown names are dropped, and the result is as long as the input exactly when
+    there was none (which is what the size comparison of encode tests) *)
+Theorem str_to_index_spec : forall e l,
+  NoDup (names e) ->
+  exists idx, str_to_index e l = Ok idx /\
+    Forall2 (fun s z => 0 <= z /\ nth_error (names e) (Z.to_nat z) = Some s)
+            (filter (isin (names e)) l) idx /\
+    (length idx = length l <-> forall s, In s l -> In s (names e)).
+Proof. exact str_to_index_spec_lemma. Qed.
+Print Assumptions str_to_index_spec.
+
+(** ** Non-vacuity: the hypotheses are satisfiable and the conclusions are the expected
+       concrete values.  Names deliberately unsorted, with prefixes and case variants. *)
+
+Definition housing : enum := mkEnum 7 ["tenant"; "owner"; "free"; "Owner"; "own"].
+Definition other : enum := mkEnum 8 ["a"; "b"; "c"].
+
+Example housing_nodup : NoDup (names housing).
+Proof. repeat constructor; cbn; intuition discriminate. Qed.
+
+Example ex_indices_hyps :
+  as_ints (Seq [EInt 4; EBool true; EInt 0]) = Some [4; 1; 0] /\
+  forallb (fun i => (0 <=? i) && (i <? size housing)) [4; 1; 0] = true.
+Proof. vm_compute. auto. Qed.
+
+Example ex_indices :
+  encode housing (Seq [EInt 4; EBool true; EInt 0]) = Ok (mkArr (Some housing) [4; 1; 0]) /\
+  decode (mkArr (Some housing) [4; 1; 0]) = Ok [(7, 4); (7, 1); (7, 0)] /\
+  decode_to_str (mkArr (Some housing) [4; 1; 0]) = Ok ["own"; "owner"; "tenant"] /\
+  encode housing (ArrInt [4; 1; 0]) = Ok (mkArr (Some housing) [4; 1; 0]).
+Proof. vm_compute. auto. Qed.
+
+Example ex_names :
+  as_names (ArrStr ["own"; "Owner"; "tenant"; "own"]) = Some ["own"; "Owner"; "tenant"; "own"] /\
+  encode housing (ArrStr ["own"; "Owner"; "tenant"; "own"]) = Ok (mkArr (Some housing) [4; 3; 0; 4]) /\
+  decode_to_str (mkArr (Some housing) [4; 3; 0; 4]) = Ok ["own"; "Owner"; "tenant"; "own"] /\
+  encode housing (Seq [EStr "free"; EStr "owner"]) = Ok (mkArr (Some housing) [2; 1]).
+Proof. vm_compute. auto. Qed.
+
+Example ex_members :
+  as_members (ArrObj [EMem (7, 2); EMem (7, 0)]) = Some [(7, 2); (7, 0)] /\
+  encode housing (ArrObj [EMem (7, 2); EMem (7, 0)]) = Ok (mkArr (Some housing) [2; 0]) /\
+  decode (mkArr (Some housing) [2; 0]) = Ok [(7, 2); (7, 0)] /\
+  encode housing (Seq [EMem (7, 2); EMem (7, 0)]) = Ok (mkArr (Some housing) [2; 0]).
+Proof. vm_compute. auto. Qed.
+
+Example ex_idempotent :
+  encode housing (ArrInt [3]) = Ok (mkArr (Some housing) [3]) /\
+  encode housing (Encoded (mkArr (Some housing) [3])) = Ok (mkArr (Some housing) [3]).
+Proof. vm_compute. auto. Qed.
+
+Example ex_total_valid_hyps :
+  wf_members housing (Seq [EMem (7, 2); EMem (7, 0)]) /\
+  (forall b, Seq [EMem (7, 2); EMem (7, 0)] <> Encoded b).
+Proof.
+  split; [|intros b H; discriminate].
+  intros m H _. cbn in H. unfold valid_index.
+  destruct H as [H|[H|[]]]; inversion H; subst; vm_compute; split; congruence.
+Qed.
+
+Example ex_out_of_range :
+  encode housing (ArrInt [0; -1; 2]) = Err EIndex /\
+  encode housing (ArrInt [5]) = Err EIndex /\
+  encode housing (Seq [EInt 0; EInt 1; EInt 5]) = Err EIndex /\
+  encode (mkEnum 9 ["only"]) (Seq [EBool true]) = Err EIndex.
+Proof. vm_compute. auto. Qed.
+
+Example ex_unknown_name :
+  encode housing (ArrStr ["owne"; "owner"]) = Err EIndex /\
+  encode housing (Seq [EStr "owner"; EStr "tenant "; EStr "own"]) = Err EIndex /\
+  encode housing (Seq [EStr "owner"; EStr "zzz"]) = Err EIndex.
+Proof. vm_compute. auto. Qed.
+
+Example ex_foreign_member :
+  encode housing (Seq [EMem (8, 0); EMem (7, 0); EMem (7, 1)]) = Err EType /\
+  encode housing (Seq [EMem (7, 0); EMem (8, 0); EMem (7, 1)]) = Err EType /\
+  encode housing (ArrObj [EMem (7, 0); EMem (7, 1); EMem (8, 0)]) = Err EType /\
+  encode other (Seq [EMem (8, 0)]) = Ok (mkArr (Some other) [0]).
+Proof. vm_compute. auto. Qed.
+
+Example ex_unsupported :
+  encode housing (Seq [EInt 0; EOther]) = Err EType /\
+  encode housing (ArrObj [EMem (7, 0); EOther]) = Err EType /\
+  encode housing (ArrOther 2) = Err EType /\
+  encode housing (Seq [EInt 0; EStr "owner"]) = Err EType.
+Proof. vm_compute. auto. Qed.
+
+Example ex_invalid_hyp : input_invalid housing (Seq [EStr "owner"; EInt 9]).
+Proof. cbn. exists (EInt 9). split; [auto|]. right. vm_compute. discriminate. Qed.
+
+Example ex_search :
+  argsort (names housing) = [3; 2; 4; 1; 0]%nat /\
+  lookup (names housing) (argsort (names housing)) "own" = Ok 4 /\
+  searchsorted (names housing) (argsort (names housing)) "owne" = Ok 3%nat /\
+  searchsorted (names housing) (argsort (names housing)) "zzz" = Ok 5%nat /\
+  str_to_index housing ["own"; "owne"; "tenant"] = Ok [4; 0].
+Proof. vm_compute. auto 6. Qed.
